@@ -63,6 +63,14 @@ pub fn seed_window(n: usize, thorough: bool, verif_seed: u64) -> Vec<u64> {
     } else {
         v.extend([14u64, 633, 1031].iter().take(if thorough { 3 } else { 1 }));
     }
+    // seeds whose first candidate sits exactly on the edge of a fixed-width field
+    let b = boundary_seeds(n);
+    let take = if thorough { b.len() } else if n == 512 { 2 } else { 5 };
+    for s in b.into_iter().take(take) {
+        if !v.contains(&s) {
+            v.push(s);
+        }
+    }
     v
 }
 
@@ -71,8 +79,114 @@ pub fn seed_window(n: usize, thorough: bool, verif_seed: u64) -> Vec<u64> {
 /// found by `falcon-mc diag keygen-branches` on the unchanged tree. They only steer coverage; the
 /// oracles are the property's own.
 pub fn rejection_seeds(n: usize) -> Vec<u64> {
+    boundary_seeds(n)
+}
+
+/// First (f, g) candidate key generation draws from seed LE64(i): 4096 samples of the key-generation
+/// sampler summed in chunks of 4096/n (what `gen_poly` does), reproduced through the sampler hook so
+/// that seeds can be chosen by the branch they exercise. Only used to steer coverage.
+pub fn first_candidate(n: usize, seed: u64) -> (Vec<i64>, Vec<i64>) {
+    use rand::SeedableRng;
+    let mut rng = rand::rngs::StdRng::from_seed(seed_bytes(seed));
+    let sigma_star = 1.43300980528773;
+    let mut poly = |rng: &mut rand::rngs::StdRng| -> Vec<i64> {
+        let samples: Vec<i64> = (0..4096).map(|_| falcon_rust::verif_hooks::sampler_z(0.0, sigma_star, sigma_star - 0.001, rng) as i64).collect();
+        samples.chunks(4096 / n).map(|c| c.iter().sum()).collect()
+    };
+    let f = poly(&mut rng);
+    let g = poly(&mut rng);
+    (f, g)
+}
+
+/// seeds in [from, from+count) whose first candidate f is not invertible modulo q (key generation must
+/// reject it and draw again)
+pub fn seeds_with_noninvertible_first_f(n: usize, from: u64, count: u64, want: usize) -> Vec<u64> {
+    use rayon::prelude::*;
+    let roots = crate::refmodel::poly::roots(n);
+    let hits: Vec<u64> = (from..from + count)
+        .into_par_iter()
+        .filter(|&s| {
+            let (f, _) = first_candidate(n, s);
+            crate::refmodel::poly::eval_at_roots(&f, &roots).iter().any(|&x| x == 0)
+        })
+        .collect();
+    hits.into_iter().take(want).collect()
+}
+
+/// seeds in [0, count) whose first candidate f vanishes at the root of X^n+1 that the implementation's
+/// NTT evaluates in one of the given output slots (the slot's root is read off ntt(X)): a key generation
+/// that forgets to test one transform slot accepts exactly these. Returns (seed, slot).
+pub fn seeds_with_first_f_vanishing_at(n: usize, count: u64, root_indices: &[usize]) -> Vec<(u64, usize)> {
+    use rayon::prelude::*;
+    let mut x = vec![0u32; n];
+    x[1] = 1;
+    let slot_roots: Vec<i64> = falcon_rust::verif_hooks::felt_fft(&x).iter().map(|&v| v as i64).collect();
+    let sel: Vec<i64> = root_indices.iter().map(|&i| slot_roots[i]).collect();
+    (0..count)
+        .into_par_iter()
+        .filter_map(|s| {
+            let (f, _) = first_candidate(n, s);
+            let ev = crate::refmodel::poly::eval_at_roots(&f, &sel);
+            ev.iter().position(|&x| x == 0).map(|p| (s, root_indices[p]))
+        })
+        .collect()
+}
+
+/// squared Gram-Schmidt norm bound test of key generation (specification Algorithm 5, line 9) on (f, g),
+/// computed with a naive complex DFT: true when gamma <= 1.17^2 q
+pub fn passes_gamma(f: &[i64], g: &[i64]) -> bool {
+    let n = f.len();
+    let q = 12289.0f64;
+    let norm1: f64 = f.iter().chain(g.iter()).map(|&x| (x * x) as f64).sum();
+    let mut acc = 0.0f64;
+    for k in 0..n {
+        let ang = std::f64::consts::PI * ((2 * k + 1) as f64) / (n as f64);
+        let (mut fr, mut fi, mut gr, mut gi) = (0.0f64, 0.0f64, 0.0f64, 0.0f64);
+        for j in 0..n {
+            let (s, c) = (ang * j as f64).sin_cos();
+            fr += f[j] as f64 * c;
+            fi += f[j] as f64 * s;
+            gr += g[j] as f64 * c;
+            gi += g[j] as f64 * s;
+        }
+        acc += 1.0 / (fr * fr + fi * fi + gr * gr + gi * gi);
+    }
+    let norm2 = q * q * acc / (n as f64);
+    norm1.max(norm2) <= 1.3689 * q
+}
+
+/// as `seeds_with_first_f_vanishing_at`, keeping only candidates that also pass the Gram-Schmidt norm
+/// test (so that only the invertibility test stands between the candidate and acceptance)
+pub fn slot_seeds_passing_gamma(n: usize, count: u64, slots: &[usize]) -> Vec<(u64, usize)> {
+    seeds_with_first_f_vanishing_at(n, count, slots)
+        .into_iter()
+        .filter(|(s, _)| {
+            let (f, g) = first_candidate(n, *s);
+            passes_gamma(&f, &g)
+        })
+        .collect()
+}
+
+/// Seeds LE64(i), i < 200000, whose first candidate (f, g) passes the Gram-Schmidt norm test while f
+/// vanishes at the root evaluated in NTT slot 0, 1, n/2 or n-1 (found with `falcon-mc diag slotscan`
+/// on the repaired tree): only the invertibility test stands between these candidates and acceptance,
+/// so an invertibility test that skips the first / last / middle slot is exposed by them.
+pub fn slot_boundary_seeds(n: usize) -> Vec<(u64, usize)> {
     match n {
-        512 => vec![],
-        _ => vec![],
+        512 => vec![(192550, 0), (9944, 511), (127064, 511), (185842, 256), (187081, 256)],
+        _ => vec![(172984, 0), (506, 1023), (44070, 512)],
+    }
+}
+
+/// Seeds whose first NTRU candidate has a coefficient of F or G exactly on or next to the edge of the
+/// 8-bit field (found by `falcon-mc diag keygen-scan` over LE64(0..12288) for n = 512 and LE64(0..8192)
+/// for n = 1024 on the repaired tree): +127 is the largest encodable value, +-128 and beyond must be
+/// resampled. They only steer coverage; the oracles are the property's own.
+pub fn boundary_seeds(n: usize) -> Vec<u64> {
+    match n {
+        // +127, +128, beyond
+        512 => vec![6703, 8213, 1052],
+        // F or G = -128, -128, +128, +128, -127, +127, f or g = +15, -15 (edge of the 5-bit field), beyond
+        _ => vec![696, 6890, 14, 633, 370, 2371, 3819, 4783, 1031],
     }
 }
